@@ -48,6 +48,14 @@ pub(crate) struct SharedContext {
     pub thread_pool: ThreadPool,
 }
 
+/// Verification accessors (`--cfg divan_verif` only).
+#[cfg(divan_verif)]
+impl Divan {
+    pub(crate) fn verif_bench_options(&self) -> &BenchOptions<'static> {
+        &self.bench_options
+    }
+}
+
 impl fmt::Debug for Divan {
     fn fmt(&self, f: &mut fmt::Formatter<'_>) -> fmt::Result {
         f.debug_struct("Divan").finish_non_exhaustive()
